@@ -24,191 +24,308 @@ def inline_local(prefix):
     return lambda cal: cal.startswith(prefix)
 
 def loop_of(B):
-    fs = [n for n, c in walk(B.root) if n['k'] == 'For']
+    fs = [n for n, c in walk(B.root) if n['k'] == 'For' and not any(a['k'] in ('For', 'Closure') for a, _ in c)]
     return fs[0] if len(fs) == 1 else None
 
-def run_body(f, B, fornode, c, out_started, extra_env=None, summaries=None, inline=None):
-    """Evaluate the loop body for literal byte c. Returns list of (pc, pushes, events, state)."""
-    I = absx.Interp(f, B, summaries=summaries or [], inline=inline or (lambda x: False))
-    binds = list(hirq.pat_bindings(fornode['pat']))
-    env = {}
-    for b, name, proj, pn in binds:
-        if proj == (('tup', 0),):
-            env[b] = ('param', 'i')
-        else:
-            env[b] = ('lit', c)
-    outb = [b for b, d in B.defs.items() if d['kind'] == 'let' and d['name'] == 'output' and d['src'] is not None and d['src'].get('k') == 'Path']
-    inb = [b for b, d in B.defs.items() if d['kind'] == 'let' and d['src'] is not None and d['src'].get('k') == 'MethodCall' and d['src'].get('name') == 'into']
-    for b in outb:
-        env[b] = ('ctor', 'Some', (('vec', ()),)) if out_started else ('ctor', 'None', ())
-    for b in inb:
-        env[b] = ('param', 'input')
-    env.update(extra_env or {})
-    res = []
-    for o in I.ev(fornode['body'], absx.St(env)):
-        pushes = [e[2][1] for e in o.st.ev if e[0] == 'call' and e[1].endswith('Vec::<T, A>::push')]
-        res.append((o, pushes))
-    return res, outb
+T_LAZY = 'core::option::Option<alloc::vec::Vec<u8>>'
+T_EAGER = 'alloc::vec::Vec<u8>'
+
+class Escaper:
+    """The roles of an escape function, found by type and data flow (never by name): the working copy of the input (a Cow<str>
+    that comes from the parameter), the byte loop over it, the output accumulator declared before the loop (an Option<Vec<u8>>
+    filled lazily from the first escape on, or a Vec<u8> filled from the start)."""
+    def __init__(self, f, path, pname):
+        self.f, self.path = f, path
+        self.B = B = hirq.Body(f, f.body(path))
+        self.loop = loop_of(B)
+        if self.loop is None:
+            raise absx.NotEvaluable('no single byte loop')
+        inside = {id(n) for n, c in walk(self.loop)}
+        self.inb = [b for b, d in B.defs.items() if d['kind'] == 'let' and (d['pat'].get('ty') or '').startswith("alloc::borrow::Cow<") and d['src'] is not None
+                    and B.roots(B.origin(d['src'])) == {('param', pname)}]
+        accs = [(b, hirq.strip_refs(d['pat'].get('ty') or '')) for b, d in B.defs.items() if d['kind'] == 'let' and id(d['node']) not in inside
+                and hirq.strip_refs(d['pat'].get('ty') or '') in (T_LAZY, T_EAGER) and not any(a['k'] in ('For', 'Closure') for a, _ in B.context(d['node']) if False)]
+        # declared outside the loop: the Let statement is not a descendant of the loop
+        accs = [(b, t) for b, t in accs if not any(x is B.defs[b]['node'] for blk, _c in walk(self.loop) if blk['k'] == 'Block' for x in blk['stmts'])]
+        self.accs = accs
+        self.lazy = any(t == T_LAZY for b, t in accs)
+        it = self.loop['iter']
+        names = [x['name'] for x, _ in walk(it) if x['k'] == 'MethodCall']
+        self.iter_ok = B.roots(B.origin(it)) <= {('param', pname)} | set() and any(n in names for n in ('as_bytes', 'bytes')) \
+            and all(n in ('enumerate', 'iter', 'as_bytes', 'bytes', 'into_iter', 'copied', 'cloned', 'as_ref') for n in names)
+        self.indexed = 'enumerate' in names
+
+    def run_byte(self, c, started, inline):
+        """the loop body for the literal byte c: [(path outcome, bytes it emits, prefix-copy events)]"""
+        I = absx.Interp(self.f, self.B, inline=inline, combinators=True)
+        env = {}
+        for b, name, proj, pn in hirq.pat_bindings(self.loop['pat']):
+            env[b] = ('param', 'i') if (self.indexed and proj[:1] == (('tup', 0),)) else ('lit', c)
+        for b, t in self.accs:
+            env[b] = (('ctor', 'Some', (('vec', ()),)) if started else ('ctor', 'None', ())) if t == T_LAZY else ('vec', ())
+        for b in self.inb:
+            env[b] = ('param', 'input')
+        res = []
+        for o in I.ev(self.loop['body'], absx.St(env)):
+            emitted, prefix = [], []
+            for e in o.st.ev:
+                if e[0] != 'call':
+                    continue
+                m = e[1].rsplit('::', 1)[-1]
+                if m == 'push' and 'Vec' in e[1]:
+                    emitted.append(e[2][1])
+                elif m in ('extend', 'extend_from_slice', 'append'):
+                    arrs = absx.leaves(e[2][1], lambda x: x[0] == 'array')
+                    if arrs and not absx.leaves(e[2][1], lambda x: x == ('param', 'input')):
+                        emitted.extend(arrs[0][1])
+                    else:
+                        prefix.append(e[2][1])
+            res.append((o, emitted, prefix))
+        return res
+
+def post_loop(B, loop):
+    """The statements and tail expression of the function body that follow the byte loop, as one block."""
+    root = B.root
+    if root['k'] != 'Block':
+        return root.get('expr')
+    idx = None
+    for i, st in enumerate(root['stmts']):
+        e = st.get('e') if st['k'] in ('Expr', 'Semi') else st.get('init')
+        if e is not None and any(x is loop for x, _ in walk(e)):
+            idx = i
+    if idx is None:
+        return root.get('expr')
+    blk = dict(root)
+    blk['stmts'] = root['stmts'][idx + 1:]
+    return blk
 
 def escape_bytes(c):
     return [('lit', 0x5c), ('lit', HEXCH[c >> 4]), ('lit', HEXCH[c & 15])]
 
-def run(ctx):
-    f = ctx.facts
-    # ------------------------------------------------------------------ E1/E3 ldap_escape
-    B = hirq.Body(f, f.body('ldap3::util::ldap_escape'))
-    ctx.analysed['bodies'].add(B.path)
-    fn = loop_of(B)
-    if fn is None:
-        ctx.fail('anchor-missing', 'ldap_escape loop', '', 'expected one for loop'); return
-    it = fn['iter']
-    ok_iter = it['k'] == 'MethodCall' and it['name'] == 'enumerate' and B.roots(B.origin(it['recv'])) == {('param', 'lit')} and \
-        [x['name'] for x, _ in walk(it) if x['k'] == 'MethodCall'] == ['enumerate', 'iter', 'as_bytes', ]
-    ctx.add('E3.iterates-input-bytes-in-order', 'ldap_escape', loc(fn), ok_iter, 'the loop does not enumerate the bytes of the input in order')
-    inl = inline_local('ldap3::util::ldap_escape::')
-    escaped = set()
-    wrong = []
+def is_prefix_upto_i(t):
+    """input[..i] (as str or bytes)"""
+    idx = absx.leaves(t, lambda x: x[0] == 'index')
+    return len(idx) == 1 and bool(absx.leaves(idx[0][1], lambda x: x == ('param', 'input')) or idx[0][1] == ('param', 'input')) and idx[0][2][0] == 'struct' \
+        and idx[0][2][1].endswith('RangeTo') and dict(idx[0][2][2]).get('end') == ('param', 'i')
+
+def transducer(ctx, E, name, inline, contexts):
+    """Evaluate the loop body for every byte (x output started?) and classify: returns {byte: set of (decision, context)} and the
+    list of deviations from "emit the byte itself, or backslash + two hex digits; copy the prefix exactly once, at the first escape"."""
+    table, wrong = {}, []
     n_eval = 0
     for c in range(256):
-        for started in (False, True):
-            res, outb = run_body(f, B, fn, c, started, inline=inl)
-            n_eval += 1
-            if len(res) != 1:
-                wrong.append((c, started, 'paths=%d' % len(res))); continue
-            o, pushes = res[0]
-            if pushes == escape_bytes(c):
-                escaped.add(c)
-                ext = [e for e in o.st.ev if e[0] == 'call' and e[1].endswith('::extend')]
-                if not started:
-                    okp = len(ext) == 1 and ext[0][2][1][0] == 'index' and ext[0][2][1][1] == ('param', 'input') and ext[0][2][1][2][0] == 'struct' \
-                        and ext[0][2][1][2][1].endswith('RangeTo') and dict(ext[0][2][1][2][2]).get('end') == ('param', 'i')
-                    new = o.st.env.get(outb[0])
-                    okp = okp and new is not None and new[0] == 'ctor' and new[1] == 'Some'
-                    if not okp:
-                        wrong.append((c, started, 'prefix not copied once as input[..i] at the first escape'))
-                elif ext:
-                    wrong.append((c, started, 'prefix copied again'))
-            elif started and pushes == [('lit', c)]:
-                pass
-            elif not started and pushes == []:
-                pass
-            else:
-                wrong.append((c, started, [absx.fmt(p) for p in pushes]))
-    ctx.add('E3.per-byte-transducer', 'ldap_escape', loc(B.root), not wrong, 'for (byte, output started) the loop body emits: %s' % wrong[:6])
-    # value class of the filter lexer, from filter.rs
+        for started in ((False, True) if E.lazy else (True,)):
+            for o, emitted, prefix in E.run_byte(c, started, inline):
+                n_eval += 1
+                if o.kind not in ('val', 'cont'):
+                    wrong.append((c, started, 'leaves the loop: ' + o.kind)); continue
+                cx = contexts(o)
+                if emitted == escape_bytes(c):
+                    table.setdefault(c, set()).add(('escape', cx))
+                    if E.lazy and not started:
+                        okp = len(prefix) == 1 and is_prefix_upto_i(prefix[0]) and all((o.st.env.get(b) or ('unk',))[:2] == ('ctor', 'Some') for b, t in E.accs if t == T_LAZY)
+                        if not okp:
+                            wrong.append((c, started, 'prefix not copied once as input[..i] at the first escape'))
+                    elif prefix:
+                        wrong.append((c, started, 'prefix copied again'))
+                elif emitted == ([('lit', c)] if started else []) and not prefix:
+                    table.setdefault(c, set()).add(('plain', cx))
+                else:
+                    wrong.append((c, started, [absx.fmt(x) for x in emitted]))
+    return table, wrong, n_eval
+
+def char_set(t):
+    """the set of bytes a `contains(..)` pattern denotes: an array / slice of char or byte literals, or a single one"""
+    arr = absx.leaves(t, lambda x: x[0] == 'array')
+    items = arr[0][1] if arr else ((t,) if t[0] == 'lit' else None)
+    if items is None:
+        return None
+    out = set()
+    for x in items:
+        if x[0] != 'lit':
+            return None
+        v = x[1]
+        if isinstance(v, str) and len(v) == 1:
+            out.add(ord(v))
+        elif isinstance(v, int) and not isinstance(v, bool):
+            out.add(v)
+        else:
+            return None
+    return out
+
+def check_identity_paths(ctx, E, name, escape_set):
+    """Where the function hands its input back unchanged, nothing may need escaping: either the lazy accumulator is still None
+    after the loop (an escape would have started it - the per-byte rule), or an earlier test excluded every byte of the escape
+    set (a `contains` over a set that covers it)."""
+    B = E.B
+    I = absx.Interp(E.f, B, unroll=1, for_once=True, combinators=True)
+    env = I.param_env()
+    outs = I.run(env=env)
+    inp = None
+    n_id = 0
+    for o in outs:
+        if o.kind not in ('val', 'ret'):
+            continue
+        v = o.val
+        ident = v[0] == 'call' and v[1].endswith('::into') or v[0] == 'param'
+        if not ident:
+            continue
+        n_id += 1
+        acc_none = any(a[0] == 'is' and a[2] == 'Some' and not t for a, t in o.st.pc) or \
+            any(o.st.env.get(b) == ('ctor', 'None', ()) for b, ty in E.accs if ty == T_LAZY)
+        by_contains = False
+        for a, t in o.st.pc:
+            if a[0] == 'call' and a[1].rsplit('::', 1)[-1] == 'contains' and not t:
+                cs = char_set(a[2][1])
+                if cs is not None and cs >= escape_set:
+                    by_contains = True
+        in_loop_ret = any(e[0] == 'call' and e[1].rsplit('::', 1)[-1] == 'push' for e in o.st.ev)
+        ctx.add('E4.identity-only-when-nothing-to-escape', name, loc(B.root), (acc_none or by_contains) and not in_loop_ret,
+                'the input is returned unchanged on a path that neither left the lazy output unset nor excluded every byte of the escape set %s' % sorted(escape_set))
+    return n_id
+
+def run(ctx):
+    f = ctx.facts
     import importlib
     C08 = importlib.import_module('props.C08')
+    # ------------------------------------------------------------------ E1/E3/E4 ldap_escape
+    try:
+        E = Escaper(f, 'ldap3::util::ldap_escape', 'lit')
+    except absx.NotEvaluable as e:
+        ctx.fail('anchor-missing', 'ldap_escape loop', '', 'expected one loop over the input bytes (%s)' % e); return
+    ctx.analysed['bodies'].add(E.path)
+    ctx.add('E3.iterates-input-bytes-in-order', 'ldap_escape', loc(E.loop), E.iter_ok, 'the loop does not visit the bytes of the input in order')
+    table, wrong, n_eval = transducer(ctx, E, 'ldap_escape', inline_local('ldap3::util::'), lambda o: None)
+    ctx.add('E3.per-byte-transducer', 'ldap_escape', loc(E.B.root), not wrong, 'for (byte, output started) the loop body emits: %s' % wrong[:6])
+    escaped = {c for c, ds in table.items() if ds == {('escape', None)}}
+    mixed = {c for c, ds in table.items() if len({d for d, _ in ds}) > 1}
+    ctx.add('E3.decision-depends-on-the-byte-only', 'ldap_escape', loc(E.B.root), not mixed, 'bytes escaped only sometimes: %s' % sorted(mixed)[:8])
     vclass = C08.eval_class(f, ('fn', 'ldap3::filter::is_value_char'))
     want = (set(range(256)) - (vclass or set())) | {0x5c}
-    ctx.add('E1.escape-set-agrees-with-filter-lexer', 'ldap_escape', loc(B.root), vclass is not None and escaped == want,
+    ctx.add('E1.escape-set-agrees-with-filter-lexer', 'ldap_escape', loc(E.B.root), vclass is not None and escaped == want,
             'ldap_escape escapes %s; the filter lexer rejects %s in values and unescapes on backslash' % (sorted(escaped), sorted(want - {0x5c})))
-    ctx.add('E1.escape-set', 'ldap_escape', loc(B.root), escaped == {0, 0x28, 0x29, 0x2a, 0x5c}, 'escape set is %s, documented: \\ * ( ) NUL' % sorted(escaped))
+    ctx.add('E1.escape-set', 'ldap_escape', loc(E.B.root), escaped == {0, 0x28, 0x29, 0x2a, 0x5c}, 'escape set is %s, documented: \\ * ( ) NUL' % sorted(escaped))
     ctx.analysed['notes'].append({'ldap_escape evaluations': n_eval})
-    check_tail(ctx, f, B, 'ldap_escape', 'lit')
+    check_identity_paths(ctx, E, 'ldap_escape', {0, 0x28, 0x29, 0x2a, 0x5c})
+    check_tail(ctx, f, E, 'ldap_escape')
 
     # ------------------------------------------------------------------ E2 dn_escape
-    D = hirq.Body(f, f.body('ldap3::util::dn_escape'))
+    try:
+        D = Escaper(f, 'ldap3::util::dn_escape', 'val')
+    except absx.NotEvaluable as e:
+        ctx.fail('anchor-missing', 'dn_escape loop', '', 'expected one loop over the input bytes (%s)' % e); return
     ctx.analysed['bodies'].add(D.path)
-    fd = loop_of(D)
-    if fd is None:
-        ctx.fail('anchor-missing', 'dn_escape loop', '', 'expected one for loop'); return
-    inl = inline_local('ldap3::util::dn_escape::')
+    ctx.add('E3.iterates-input-bytes-in-order', 'dn_escape', loc(D.loop), D.iter_ok, 'the loop does not visit the bytes of the input in order')
+    def dn_ctx(o):
+        first = next((t for a, t in o.st.pc if a == ('bin', 'Eq', ('param', 'i'), ('lit', 0))), None)
+        last = next((t for a, t in o.st.pc if a[0] == 'bin' and a[1] == 'Eq' and a[2] == ('bin', 'Add', ('param', 'i'), ('lit', 1)) and a[3][0] == 'call' and a[3][1].endswith('::len')), None)
+        return (first, last)
+    table, wrong, n_eval = transducer(ctx, D, 'dn_escape', inline_local('ldap3::util::'), dn_ctx)
     always, leading, trailing = set(), set(), set()
-    wrong = []
-    for c in range(256):
-        for started in (False, True):
-            res, outb = run_body(f, D, fd, c, started, inline=inl)
-            for o, pushes in res:
-                first = next((t for a, t in o.st.pc if a == ('bin', 'Eq', ('param', 'i'), ('lit', 0))), None)
-                last = next((t for a, t in o.st.pc if a[0] == 'bin' and a[1] == 'Eq' and a[2] == ('bin', 'Add', ('param', 'i'), ('lit', 1)) and a[3][0] == 'call' and a[3][1].endswith('::len')), None)
-                esc = pushes == escape_bytes(c)
-                plain = pushes == ([('lit', c)] if started else [])
-                if not (esc or plain):
-                    wrong.append((c, started, first, last, [absx.fmt(p) for p in pushes])); continue
-                if esc:
-                    if first is None and last is None:
-                        always.add(c)
-                    elif first is True:
-                        leading.add(c)
-                    elif last is True:
-                        trailing.add(c)
-                    else:
-                        wrong.append((c, 'escaped with first=%s last=%s' % (first, last)))
-                else:
-                    if c in always:
-                        wrong.append((c, 'sometimes not escaped'))
-    leading -= always
-    trailing -= always
-    ctx.add('E3.per-byte-transducer', 'dn_escape', loc(D.root), not wrong, 'unexpected loop-body behaviour: %s' % wrong[:6])
-    ctx.add('E2.always-escaped', 'dn_escape', loc(D.root), RFC4514_SPECIAL <= always and always <= (ASCII_PUNCT | {0}),
+    for c, ds in table.items():
+        esc = [cx for d, cx in ds if d == 'escape']
+        plain = [cx for d, cx in ds if d == 'plain']
+        if esc and not plain:
+            always.add(c)
+        for first, last in esc:
+            if c in always:
+                continue
+            if first is True:
+                leading.add(c)
+            elif last is True:
+                trailing.add(c)
+            else:
+                wrong.append((c, 'escaped with first=%s last=%s' % (first, last)))
+    ctx.add('E3.per-byte-transducer', 'dn_escape', loc(D.B.root), not wrong, 'unexpected loop-body behaviour: %s' % wrong[:6])
+    ctx.add('E2.always-escaped', 'dn_escape', loc(D.B.root), RFC4514_SPECIAL <= always and always <= (ASCII_PUNCT | {0}),
             'always-escaped set %s must contain RFC 4514\'s %s and stay within ASCII punctuation' % (sorted(always), sorted(RFC4514_SPECIAL)))
-    ctx.add('E2.leading', 'dn_escape', loc(D.root), leading == {0x20, 0x23}, 'escaped only in first position: %s, RFC 4514: space and #' % sorted(leading))
-    ctx.add('E2.trailing', 'dn_escape', loc(D.root), trailing == {0x20}, 'escaped only in last position: %s, RFC 4514: space' % sorted(trailing))
-    check_tail(ctx, f, D, 'dn_escape', 'val')
+    ctx.add('E2.leading', 'dn_escape', loc(D.B.root), leading == {0x20, 0x23}, 'escaped only in first position: %s, RFC 4514: space and #' % sorted(leading))
+    ctx.add('E2.trailing', 'dn_escape', loc(D.B.root), trailing == {0x20}, 'escaped only in last position: %s, RFC 4514: space' % sorted(trailing))
+    check_identity_paths(ctx, D, 'dn_escape', always | leading | trailing)
+    check_tail(ctx, f, D, 'dn_escape')
 
     # ------------------------------------------------------------------ E5 ldap_unescape
     n, w = unesc.check_feed(f)
     ctx.add('E5.unescaper-automaton', 'Unescaper::feed', '', not w and n == 5120, 'the shared unescaper differs from the RFC 4515 automaton on %d of %d (state, byte) pairs: %s' % (len(w), n, w[:4]))
-    U = hirq.Body(f, f.body('ldap3::util::ldap_unescape'))
+    try:
+        UE = Escaper(f, 'ldap3::util::ldap_unescape', 'val')
+    except absx.NotEvaluable as e:
+        ctx.fail('anchor-missing', 'ldap_unescape loop', '', 'expected one loop over the input bytes (%s)' % e); return
+    U = UE.B
     ctx.analysed['bodies'].add(U.path)
-    fu = loop_of(U)
-    if fu is None:
-        ctx.fail('anchor-missing', 'ldap_unescape loop', '', 'expected one for loop'); return
-    escb = [b for b, d in U.defs.items() if d['kind'] == 'let' and d['name'] == 'esc']
+    # the automaton state: the local of type Unescaper declared before the loop
+    escb = [b for b, d in U.defs.items() if d['kind'] == 'let' and hirq.strip_refs(d['pat'].get('ty') or '') == 'ldap3::filter::Unescaper'
+            and not any(x is d['node'] for blk, _c in walk(UE.loop) if blk['k'] == 'Block' for x in blk['stmts'])]
+    if len(escb) != 1 or not UE.accs:
+        ctx.fail('anchor-missing', 'ldap_unescape state', '', 'expected one Unescaper state variable and one output accumulator'); return
+    init = U.defs[escb[0]]['src']
+    ctx.add('E5.initial-state', 'ldap_unescape', loc(U.root), init is not None and init['k'] == 'Call' and hirq.short_def(init['f'].get('ctor_of') or '') == 'Unescaper::Value',
+            'the unescaper must start in the Value state')
     wrong = []
-    for s in unesc.all_states():
+    for s_ in unesc.all_states():
         for c in list(range(0, 256, 7)) + list(unesc.HEX) + [0x5c]:
             for started in (False, True):
-                res, outb = run_body(f, U, fu, c, started, extra_env={escb[0]: unesc.state_term(s)}, summaries=[unesc.char_summary], inline=lambda cal: cal == unesc.FEED)
-                exp_state = unesc.ref_feed(s, c)
-                for o, pushes in res:
+                I = absx.Interp(f, U, summaries=[unesc.char_summary], inline=lambda cal: cal == unesc.FEED or cal.startswith('ldap3::util::'), combinators=True)
+                env = {escb[0]: unesc.state_term(s_)}
+                for b, name, proj, pn in hirq.pat_bindings(UE.loop['pat']):
+                    env[b] = ('param', 'i') if (UE.indexed and proj[:1] == (('tup', 0),)) else ('lit', c)
+                for b, t in UE.accs:
+                    env[b] = (('ctor', 'Some', (('vec', ()),)) if started else ('ctor', 'None', ())) if t == T_LAZY else ('vec', ())
+                for b in UE.inb:
+                    env[b] = ('param', 'input')
+                exp_state = unesc.ref_feed(s_, c)
+                for o in I.ev(UE.loop['body'], absx.St(env)):
+                    pushes = [e[2][1] for e in o.st.ev if e[0] == 'call' and e[1].endswith('Vec::<T, A>::push')]
                     ns = unesc.from_term(o.st.env.get(escb[0], ('unk',)))
                     if ns != exp_state:
-                        wrong.append((s, c, 'state', ns)); continue
-                    ext = [e for e in o.st.ev if e[0] == 'call' and e[1].endswith('::extend')]
-                    if exp_state[0] == 'Value':
-                        exp_push = [('lit', exp_state[1])] if started else []
-                    else:
-                        exp_push = []
+                        wrong.append((s_, c, 'state', ns)); continue
+                    ext = [e for e in o.st.ev if e[0] == 'call' and e[1].rsplit('::', 1)[-1] in ('extend', 'extend_from_slice')]
+                    exp_push = [('lit', exp_state[1])] if (exp_state[0] == 'Value' and started) else []
                     if pushes != exp_push:
-                        wrong.append((s, c, started, 'pushes', [absx.fmt(p) for p in pushes]))
-                    if exp_state[0] == 'WantFirst' and not started:
-                        new = o.st.env.get(outb[0])
-                        if not (len(ext) == 1 and new is not None and new[0] == 'ctor' and new[1] == 'Some'):
-                            wrong.append((s, c, 'output not started with the prefix when the first escape begins'))
+                        wrong.append((s_, c, started, 'pushes', [absx.fmt(p_) for p_ in pushes]))
+                    if exp_state[0] == 'WantFirst' and not started and UE.lazy:
+                        now = [o.st.env.get(b) for b, t in UE.accs if t == T_LAZY]
+                        if not (len(ext) == 1 and is_prefix_upto_i(ext[0][2][1]) and all(x is not None and x[:2] == ('ctor', 'Some') for x in now)):
+                            wrong.append((s_, c, 'output not started with the prefix input[..i] when the first escape begins'))
                     elif ext:
-                        wrong.append((s, c, started, 'unexpected prefix copy'))
+                        wrong.append((s_, c, started, 'unexpected prefix copy'))
     ctx.add('E5.unescape-loop', 'ldap_unescape', loc(U.root), not wrong, 'loop body deviates from "feed, push Value bytes, start output at first backslash": %s' % wrong[:5])
-    # tail: output Some -> Value ? Ok(Owned(from_utf8(output)?)) : Err ; None -> Ok(val)
-    I = absx.Interp(f, U)
+    # tail: output started -> Value ? Ok(Owned(from_utf8(output)?)) : Err ; not started -> Ok(input)
+    I = absx.Interp(f, U, combinators=True)
     tails = {}
-    t = U.root.get('expr')
-    outb = [b for b, d in U.defs.items() if d['kind'] == 'let' and d['name'] == 'output' and d['src'] is not None and d['src'].get('k') == 'Path']
-    inb = [b for b, d in U.defs.items() if d['kind'] == 'let' and d['src'] is not None and d['src'].get('k') == 'MethodCall' and d['src'].get('name') == 'into']
+    t = post_loop(U, UE.loop)
     for started in (False, True):
-        for s in (('Value', 65), ('WantFirst',), ('WantSecond', 3), ('Error',)):
-            env = {outb[0]: ('ctor', 'Some', (('param', 'out'),)) if started else ('ctor', 'None', ()), inb[0]: ('param', 'input'), escb[0]: unesc.state_term(s)}
-            res = [o for o in I.ev(t, absx.St(env)) if o.kind in ('val', 'ret')]
-            tails[(started, s[0])] = [absx.fmt(o.val)[:60] for o in res]
+        for s_ in (('Value', 65), ('WantFirst',), ('WantSecond', 3), ('Error',)):
+            env = {escb[0]: unesc.state_term(s_)}
+            for b, ty in UE.accs:
+                env[b] = (('ctor', 'Some', (('param', 'out'),)) if started else ('ctor', 'None', ())) if ty == T_LAZY else ('param', 'out')
+            for b in UE.inb:
+                env[b] = ('param', 'input')
+            res = [o for o in I.ev(t, absx.St(env)) if o.kind in ('val', 'ret')] if t is not None else []
+            tails[(started, s_[0])] = [absx.fmt(o.val)[:60] for o in res]
     okt = all(v == ['Ok(input)'] for k, v in tails.items() if not k[0])
-    okt = okt and all(all(x.startswith('Err(') for x in v) for k, v in tails.items() if k[0] and k[1] != 'Value')
+    okt = okt and all(v and all(x.startswith('Err(') or x.startswith('tryerr') for x in v) for k, v in tails.items() if k[0] and k[1] != 'Value')
     okt = okt and any(x.startswith('Ok(Cow::Owned(') and 'from_utf8(out)' in x for x in tails[(True, 'Value')])
     ctx.add('E5.unescape-result', 'ldap_unescape', loc(U.root), okt, 'result by (output started, final state): %s' % tails)
 
 
-def check_tail(ctx, f, B, name, pname):
-    """E4: the input is returned unchanged when nothing was escaped; the collected bytes otherwise."""
-    I = absx.Interp(f, B)
-    t = B.root.get('expr')
-    outb = [b for b, d in B.defs.items() if d['kind'] == 'let' and d['name'] == 'output' and d['src'] is not None and d['src'].get('k') == 'Path']
-    inb = [b for b, d in B.defs.items() if d['kind'] == 'let' and d['src'] is not None and d['src'].get('k') == 'MethodCall' and d['src'].get('name') == 'into']
-    if t is None or len(outb) != 1 or len(inb) != 1:
-        ctx.fail('E4.tail', name, loc(B.root), 'unexpected function shape'); return
-    r0 = [o.val for o in I.ev(t, absx.St({outb[0]: ('ctor', 'None', ()), inb[0]: ('param', 'input')})) if o.kind in ('val', 'ret')]
-    ctx.add('E4.unchanged-when-nothing-escaped', name, loc(t), r0 == [('param', 'input')], 'with nothing to escape the function returns %s instead of its input' % [absx.fmt(x) for x in r0])
-    r1 = [o.val for o in I.ev(t, absx.St({outb[0]: ('ctor', 'Some', (('param', 'out'),)), inb[0]: ('param', 'input')})) if o.kind in ('val', 'ret')]
+def check_tail(ctx, f, E, name):
+    """E4: after the loop the collected bytes are what is returned (as an owned string) whenever output was started."""
+    B = E.B
+    I = absx.Interp(f, B, combinators=True)
+    t = post_loop(B, E.loop)
+    if t is None or not E.accs or len(E.inb) != 1:
+        ctx.fail('E4.tail', name, loc(B.root), 'unexpected function shape (no tail expression / accumulator / working copy of the input)'); return
+    env = {E.inb[0]: ('param', 'input')}
+    for b, ty in E.accs:
+        env[b] = ('ctor', 'Some', (('param', 'out'),)) if ty == T_LAZY else ('param', 'out')
+    r1 = [o.val for o in I.ev(t, absx.St(env)) if o.kind in ('val', 'ret')]
     ok = len(r1) == 1 and r1[0][0] == 'ctor' and r1[0][1] == 'Cow::Owned' and absx.leaves(r1[0], lambda x: x == ('param', 'out')) and 'from_utf8' in str(r1[0])
     ctx.add('E4.owned-when-escaped', name, loc(t), ok, 'with escapes the function does not return the collected output')
-    init = f.hir[B.path]
-    d = [d for b, d in B.defs.items() if b == inb[0]][0]
-    ctx.add('E4.input-binding', name, loc(B.root), B.origin(d['src']) == (('param', pname), ()), 'the working copy is not the caller\'s input')
+    if E.lazy:
+        env0 = dict(env)
+        for b, ty in E.accs:
+            if ty == T_LAZY:
+                env0[b] = ('ctor', 'None', ())
+        r0 = [o.val for o in I.ev(t, absx.St(env0)) if o.kind in ('val', 'ret')]
+        ctx.add('E4.unchanged-when-nothing-escaped', name, loc(t), r0 == [('param', 'input')], 'with nothing to escape the function returns %s instead of its input' % [absx.fmt(x) for x in r0])
